@@ -18,10 +18,10 @@ import (
 func init() {
 	register(&core.Rule{ID: "C09.10", Prop: "C09", MinSites: 4,
 		Desc: "clamps land on their bound (ring): for every `if X <cmp> Y { v = E }` whose only statement assigns a term v of the comparison, X - Y vanishes identically once E is substituted for v (a clamp of a count to what is available, of a window to the end of the ring)",
-		Run: func(c *core.Ctx) { runClamp(c, "pkg/buffer/ring") }})
+		Run:  func(c *core.Ctx) { runClamp(c, "pkg/buffer/ring") }})
 	register(&core.Rule{ID: "C11.8", Prop: "C11", MinSites: 2,
 		Desc: "clamps land on their bound (linked list): in Peek/PeekWithBytes the segment cut `if cum+offset > maxBytes { offset = maxBytes - cum }` and its like make the comparison an equality after the assignment",
-		Run: func(c *core.Ctx) { runClamp(c, "pkg/buffer/linkedlist") }})
+		Run:  func(c *core.Ctx) { runClamp(c, "pkg/buffer/linkedlist") }})
 }
 
 type linForm map[string]int
